@@ -9,7 +9,9 @@ import (
 	"os/exec"
 	"path/filepath"
 	"regexp"
+	"runtime"
 	"sort"
+	"strconv"
 	"strings"
 	"testing"
 
@@ -388,6 +390,9 @@ func TestC20Child(t *testing.T) {
 	if err := json.Unmarshal([]byte(spec), &s); err != nil {
 		t.Fatal(err)
 	}
+	// strace counts "the N-th call" per thread: keep every call of the scenario on the thread this goroutine
+	// already runs on (normally the main thread, whose start-up history is the same in every run)
+	runtime.LockOSThread()
 	r := runScenario(&s, dir)
 	b, _ := json.Marshal(r)
 	fmt.Printf("C20-RESULT %s\n", b)
@@ -400,9 +405,11 @@ type injPoint struct {
 	Sig     string // normalised arguments of the recorded call (lengths, offsets, flags): must match the injected call
 }
 
-var reSigStr = regexp.MustCompile(`"(?:[^"\\\\]|\\\\.)*"(?:\.\.\.)?`)
+var reSigStr = regexp.MustCompile(`"(?:[^"\\]|\\.)*"(?:\.\.\.)?`)
+var reSigAuditLen = regexp.MustCompile(`(audit[^>]*>, B), \d+$`)
 var reSigHex = regexp.MustCompile(`0x[0-9a-f]+`)
 var reSigTmp = regexp.MustCompile(`/[^ ,>"]*/(inj\d+|rec)/`)
+var reSigCwd = regexp.MustCompile(`AT_FDCWD<[^>]*>`) // strace -y prints the working directory, private to each process
 var reSigFD = regexp.MustCompile(`^\d+<`)
 
 // callSig keeps what identifies a call besides its ordinal: flags, lengths and offsets, the path with the random
@@ -411,11 +418,14 @@ func callSig(args string) string {
 	if i := strings.LastIndex(args, ") = "); i >= 0 {
 		args = args[:i]
 	}
+	args = reSigCwd.ReplaceAllString(args, "AT_FDCWD")
 	args = reSigStr.ReplaceAllString(args, "B")
 	args = reSigHex.ReplaceAllString(args, "B")
 	args = reSigTmp.ReplaceAllString(args, "/D/")
-	args = reRandName.ReplaceAllString(args, "${1}N")
+	args = normNames(args)
 	args = reSigFD.ReplaceAllString(args, "FD<")
+	// an audit record's length varies from run to run (timestamps, durations, random names inside it)
+	args = reSigAuditLen.ReplaceAllString(args, "$1, L")
 	return args
 }
 
@@ -472,9 +482,19 @@ func parseTrace(traceFile, dir string) []injPoint {
 
 var reRandName = regexp.MustCompile(`(body|crzmp)\d+`)
 
+// the concurrent audit writer stores each record under <date>/<date-time>/<date-time>-<transaction id>
+var reAuditName = regexp.MustCompile(`audit/\d{8}(/\d{8}-\d{4}(/\d{8}-\d{6}-[A-Za-z0-9]+)?)?`)
+
+func normNames(s string) string {
+	s = reRandName.ReplaceAllString(s, "${1}N")
+	return reAuditName.ReplaceAllStringFunc(s, func(m string) string {
+		return "audit" + strings.Repeat("/T", strings.Count(m, "/"))
+	})
+}
+
 // normPath: path relative to the private directory with the random part of temporary names removed
 func normPath(p, dir string) string {
-	return reRandName.ReplaceAllString(strings.TrimPrefix(p, dir), "${1}N")
+	return normNames(strings.TrimPrefix(p, dir))
 }
 
 func firstPath(args, dir string) string {
@@ -572,6 +592,9 @@ func checkC20Faults(c *C20FaultCase) Result {
 			}
 		}
 		if nInjected != 1 || !strings.Contains(injLine, dir+"/") {
+			if os.Getenv("VERIF_C20_DEBUG") != "" {
+				fmt.Fprintf(os.Stderr, "MISALIGNED %s #%d sig=%q path=%q n=%d line=%q\n", p.Syscall, p.Nth, p.Sig, p.Path, nInjected, injLine)
+			}
 			statExtra("misaligned-injections", 1)
 			continue
 		}
@@ -676,7 +699,31 @@ func genC20Fault(t *rapid.T) *C20FaultCase {
 	return &C20FaultCase{Scenario: s}
 }
 
+// c20Core: scenarios enumerated in every run (shard k takes the k-th), so that the classes the property names
+// - several uploads removed at Close, body spill-over, both audit writers - never depend on the draw.
+var c20Core = []C20Scenario{
+	{BodyKind: "multipart", Files: 3, KeepFiles: "Off", Audit: true, AuditType: "Serial", RespBody: true, StopAfter: -1},
+	{BodyKind: "multipart", Files: 2, KeepFiles: "RelevantOnly", Audit: true, AuditType: "Concurrent", StopAfter: -1},
+	{BodyKind: "spill", KeepFiles: "Off", Audit: false, AuditType: "Serial", Deny: 2, RespBody: true, StopAfter: -1},
+}
+
 func TestC20Faults(t *testing.T) {
+	if k, err := strconv.Atoi(os.Getenv("VERIF_SHARD")); err == nil && k >= 0 && k < len(c20Core) && os.Getenv("VERIF_REPLAY") == "" {
+		c := &C20FaultCase{Scenario: c20Core[k]}
+		res := checkC20Faults(c)
+		statEval(1)
+		statLabels(append(res.Labels, "core-scenario"))
+		if res.Fail != nil {
+			if _, err := os.Stat(filepath.Join(os.Getenv("VERIF_FAILDIR"), "C20F.json")); err != nil {
+				recordFailure("C20F", c, res.Fail)
+			}
+			t.Fatalf("%s", res.Fail.Msg)
+		}
+		if res.NonTrivial {
+			key, _ := json.Marshal(c)
+			statNonTrivial(key, c)
+		}
+	}
 	rapid.Check(t, func(rt *rapid.T) {
 		c := genC20Fault(rt)
 		res := checkC20Faults(c)
